@@ -48,7 +48,7 @@ func (r *vRecFs) rec(name, path, path2 string, mutating bool) (*vOp, error) {
 	return op, nil
 }
 
-func (r *vRecFs) reset() { r.log = nil; r.opens = 0; r.closes = 0 }
+func (r *vRecFs) reset() { r.log = nil; r.opens = 0; r.closes = 0; r.written = nil }
 
 func (r *vRecFs) mutations() []vOp {
 	var m []vOp
